@@ -312,3 +312,37 @@ func JSONWideSeedPackage(r *rand.Rand, pkg string) *Pkg {
 	}
 	return g.p
 }
+
+// NilableSeedPackage (C07, appended batch): Option / pointer / interface / slice / map / func / chan
+// fields of every nil-able element kind, private and public, under @fp.Value (with and without
+// @fp.GenLabelled / constructors / PubField accessors), under the stand-alone annotations and
+// as instantiations of a type parameter. Together with the forced value pool of the law test
+// (lwPair: None, Some(typed nil), Some(empty), nil, empty, empty-with-capacity, nil element)
+// every round-trip law meets those values in every run; floors on the pool.* counters.
+func NilableSeedPackage(r *rand.Rand, pkg string) *Pkg {
+	g := NewG(r, pkg, false)
+	fn := func() *Ty { return FuncT(g.fid(), []*Ty{tInt()}, nil, []*Ty{tStr()}, nil) }
+	opt := func(e *Ty) *Ty { return OptionT(e, true) }
+	tags := func() *Ty { return plainTy("Tags", "lwSliceOf[Tags](lwStr[string]())", false) }
+	g.mk("OptKinds", "nilable/option-of-every-nilable-kind", vL,
+		fld("op", opt(PtrT(tInt()))), fld("osl", opt(SliceT(tStr()))), fld("om", opt(MapT(tStr(), tInt()))), fld("ofn", opt(fn())), fld("och", opt(ChanT(0, tInt()))),
+		fld("oif", opt(LocalIfaceT())), fld("oany", opt(AnyT())), fld("otags", opt(tags())), fld("oo", opt(opt(PtrT(tInt())))), fld("oseq", opt(SeqT(tInt()))),
+		fld("obs", opt(BytesT())), fld("opp", opt(PtrT(PtrT(tInt())))), fld("oi", opt(tInt())), fld("os", opt(tStr())),
+		fld("PubOp", opt(PtrT(tStr()))), fld("PubOsl", opt(SliceT(tInt()))), fld("PubOm", opt(MapT(tInt(), tStr()))))
+	g.mk("NilKinds", "nilable/plain-fields-of-every-nilable-kind", vL,
+		fld("p", PtrT(tInt())), fld("pp", PtrT(PtrT(tInt()))), fld("sl", SliceT(tStr())), fld("bs", BytesT()), fld("m", MapT(tStr(), tInt())), fld("fn", fn()),
+		fld("ch", ChanT(0, tInt())), fld("ifc", LocalIfaceT()), fld("a", AnyT()), fld("sq", SeqT(PtrT(tInt()))), fld("slp", SliceT(PtrT(tInt()))), fld("mp", MapT(tStr(), PtrT(tInt()))),
+		fld("ssl", SliceT(SliceT(tInt()))), fld("tg", tags()), fld("PubP", PtrT(tInt())), fld("PubSl", SliceT(tInt())), fld("PubM", MapT(tStr(), tInt())), fld("PubIf", GreeterT()))
+	g.mk("OptStandalone", "nilable/stand-alone-annotations", []string{"@fp.Getter", "@fp.With", "@fp.Builder", "@fp.AllArgsConstructor"},
+		fld("name", tStr()), fld("op", opt(PtrT(tInt()))), fld("osl", opt(SliceT(tInt()))), fld("om", opt(MapT(tStr(), tInt()))), fld("p", PtrT(tInt())), fld("sl", SliceT(tInt())))
+	for k, inst := range []*Ty{PtrT(tInt()), SliceT(tInt()), MapT(tStr(), tInt())} {
+		s := g.mk(fmt.Sprintf("OptGeneric%d", k+1), "nilable/type-parameter-instantiated-with-a-nilable-type", vOnly)
+		s.TParams = []TParam{{Name: "T", CSrc: "any", CK: "any", Inst: inst}}
+		s.Fields = []Field{fld("opt", opt(TParamT("T", inst))), fld("val", TParamT("T", inst)), fld("many", SliceT(TParamT("T", inst))), fld("label", tStr())}
+	}
+	g.mk("OptRequired", "nilable/required-args-constructor", []string{"@fp.Value", "@fp.RequiredArgsConstructor"}, fld("name", tStr()), fld("op", opt(PtrT(tInt()))), fld("p", PtrT(tInt())), fld("sl", SliceT(tInt())))
+	g.mk("OptPub", "nilable/pubfield-accessors", []string{"@fp.Value", "@fp.GetterPubField", "@fp.WithPubField", "@fp.AllArgsConstructor"},
+		fld("PubOp", opt(PtrT(tInt()))), fld("PubOsl", opt(SliceT(tInt()))), fld("PubFn", fn()), fld("name", tStr()), fld("op", opt(MapT(tStr(), tInt()))))
+	g.mk("OptJson", "nilable/with-@fp.Json", vJL, fld("op", opt(PtrT(tInt()))), fld("osl", opt(SliceT(tStr()))), fld("sl", SliceT(tStr())), fld("p", PtrT(tStr())), fld("name", tStr()))
+	return g.p
+}
